@@ -273,4 +273,92 @@ theorem Ob_splitRoot_heap_error (mp : OMap r) (s : MHSt r) (hm : root_splitHyp m
 
 end root
 
+/-! ## non-vacuity: a data slab with the keys 5, 9 (T = 1024), as a root and as the only child of an index slab -/
+
+section examples
+
+private def mrs_exElem (k sz : Nat) : MElemF (MElems 0) :=
+  .single { key := ⟨1, k, [k]⟩, val := ⟨1, .val k⟩, size := sz }
+
+/-- a data slab with slab id (1, id), header size `size` and one element of size 12 + 8 per key -/
+private def mrs_exData (id size : Nat) (ks : List Nat) (isRoot : Bool) : MDataSlab 0 :=
+  { hdr := ⟨⟨1, id⟩, size, ks.headD 0⟩, next := ⟨0, 0⟩,
+    elems := { hkeys := ks, elems := ks.map (mrs_exElem · 12), size := 8 + 20 * ks.length, level := 0 },
+    root := isRoot, inlined := false }
+
+/-- an empty heap, allocation counter 40 -/
+private def mrs_exSt : MHSt 0 := { heap := fun _ => none, ctx := ⟨40, [], []⟩ }
+
+/-- a root data slab (1, 7) with the keys 5, 9 -/
+private def mrs_exMap : OMap 0 := ⟨0, mrs_exData 7 50 [5, 9] true, 0, 2, 0⟩
+
+/-- the hypotheses of `Ob_splitRoot_heap` hold for it (the model splits the root; both halves are in range) -/
+private theorem mrs_exMap_hyps : ∃ (mp' : OMap 0) (c' : Ctx) (l rr : MTree 0 mrs_exMap.d) (c2 : Ctx),
+    root_splitHyp mrs_exMap ∧ OMap.splitRoot mrs_exMap mrs_exSt.ctx = .ok (mp', c') ∧
+    MTree.split mrs_exMap.d (mrs_rootOld mrs_exMap mrs_exSt.ctx) (mrs_exSt.ctx.alloc mrs_exMap.rootID.addr).2 = .ok (l, rr, c2) ∧
+    mr_RootFit mrs_exMap.d l ∧ mr_RootFit mrs_exMap.d rr := by
+  refine ⟨_, _, _, _, _, by simp only [root_splitHyp, mrs_exMap]; decide, rfl, rfl, ?_, ?_⟩
+  · exact ⟨by decide, by decide, by decide⟩
+  · exact ⟨by decide, by decide, by decide⟩
+
+/-- ... so, by the theorem, the call returns no error and the heap holds three slabs afterwards: the halves under
+    (1, 41) / (1, 42) and the new root under the old root identifier (1, 7); the effects are the model's -/
+example : ((rsOf 1024).splitRoot (md_map mrs_exMap mrs_exSt)).1 = none := by
+  obtain ⟨mp', c', l, rr, c2, h1, h2, h3, h4, h5⟩ := mrs_exMap_hyps
+  rw [(Ob_splitRoot_heap 1024 mrs_exMap mrs_exSt h1 h2 h3 h4 h5).1]
+
+example : (let q := (rsOf 1024).splitRoot (md_map mrs_exMap mrs_exSt)
+    (q.1, (q.2.Storage.heap ⟨1, 41⟩).isSome, (q.2.Storage.heap ⟨1, 42⟩).isSome, (q.2.Storage.heap ⟨1, 7⟩).isSome,
+      (q.2.Storage.heap ⟨1, 8⟩).isSome, q.2.Storage.ctx.eff)) =
+    (none, true, true, true, false,
+      [.alloc 1 ⟨1, 41⟩, .alloc 1 ⟨1, 42⟩, .store ⟨1, 41⟩, .store ⟨1, 42⟩, .store ⟨1, 7⟩]) := by rfl
+
+/-- the error case: a root with ONE element -/
+example : ((rsOf 1024).splitRoot (md_map (⟨0, mrs_exData 7 30 [5] true, 0, 1, 0⟩ : OMap 0) mrs_exSt)).1 = some .slabSplit := by
+  rw [Ob_splitRoot_heap_error 1024 (⟨0, mrs_exData 7 30 [5] true, 0, 1, 0⟩ : OMap 0) mrs_exSt
+    (by simp only [root_splitHyp]; decide) (e := .slabSplit) rfl ⟨by decide, by decide, by decide⟩]
+
+/-- an index slab (1, 7) whose only child is the data slab (1, 9) with the keys 5, 9 -/
+private def mrs_exChild : MTree 0 0 := mrs_exData 9 66 [5, 9] false
+private def mrs_exParent : MMetaSlab (MTree 0 0) :=
+  { hdr := ⟨⟨1, 7⟩, 12 + 18, 5⟩, childHdrs := [(mrs_exData 9 66 [5, 9] false).hdr], children := [mrs_exChild], root := true }
+
+/-- the hypotheses of `Ob_SplitChildSlab_heap` / `Ob_SplitChildSlab_heapPost` hold -/
+private theorem mrs_exChild_hyps : ∃ (m' : MMetaSlab (MTree 0 0)) (c' : Ctx) (l rr : MTree 0 0) (c1 : Ctx),
+    0 < mrs_exParent.childHdrs.length ∧ msl_SplitOK 0 mrs_exChild ∧
+    MMetaSlab.splitChildSlab mrs_exParent mrs_exChild 0 mrs_exSt.ctx = .ok (m', c') ∧
+    MTree.split 0 mrs_exChild mrs_exSt.ctx = .ok (l, rr, c1) ∧ mr_RootFit 0 l ∧ mr_RootFit 0 rr ∧
+    mrs_KidsHeld mrs_exSt.heap 0 mrs_exChild ∧ (MTree.hdr 0 rr).id ∉ md_ids 0 mrs_exChild ∧
+    (MTree.hdr 0 rr).id ≠ mrs_exParent.hdr.id ∧ mrs_exParent.hdr.id ∉ md_ids 0 mrs_exChild ∧
+    (MTree.hdr 0 mrs_exChild).id ∉ mrs_kidIds 0 mrs_exChild := by
+  refine ⟨_, _, _, _, _, by decide, ?_, rfl, rfl, ?_, ?_, trivial, ?_, by decide, ?_, ?_⟩
+  · simp only [msl_SplitOK, mrs_exChild]; decide
+  · exact ⟨by decide, by decide, by decide⟩
+  · exact ⟨by decide, by decide, by decide⟩
+  · exact fun h => absurd (List.mem_singleton.mp h) (by decide)
+  · exact fun h => absurd (List.mem_singleton.mp h) (by decide)
+  · exact fun h => nomatch h
+
+/-- ... so, by the theorems: no error, and the heap holds both halves and the parent afterwards -/
+example : ((rsOf 1024).splitChild (md_meta mrs_exParent none) mrs_exSt (md_tree 0 mrs_exChild none) (Int.ofNat 0)).1 = none := by
+  obtain ⟨m', c', l, rr, c1, h1, h2, h3, h4, h5, h6, _⟩ := mrs_exChild_hyps
+  rw [(Ob_SplitChildSlab_heap 1024 0 mrs_exParent none mrs_exChild 0 mrs_exSt h1 h2 h3 h4 h5 h6).1]
+
+example : ∃ (m' : MMetaSlab (MTree 0 0)) (l rr : MTree 0 0),
+    let s' := ((rsOf 1024).splitChild (md_meta mrs_exParent none) mrs_exSt (md_tree 0 mrs_exChild none) (Int.ofNat 0)).2.2.1
+    MHolds s'.heap 0 l none ∧ MHolds s'.heap 0 rr none ∧ s'.heap m'.hdr.id = some (.metaSlab (md_meta m' none)) := by
+  obtain ⟨m', c', l, rr, c1, h1, h2, h3, h4, h5, h6, h7, h8, h9, h10, h11⟩ := mrs_exChild_hyps
+  refine ⟨m', l, rr, ?_⟩
+  rw [(Ob_SplitChildSlab_heap 1024 0 mrs_exParent none mrs_exChild 0 mrs_exSt h1 h2 h3 h4 h5 h6).1]
+  have hp := Ob_SplitChildSlab_heapPost 0 mrs_exParent m' none mrs_exChild l rr 0 c' c1 mrs_exSt h3 h4 h7 h8 h9 h10 h11
+  exact ⟨hp.1, hp.2.1, hp.2.2.1⟩
+
+example : (let q := (rsOf 1024).splitChild (md_meta mrs_exParent none) mrs_exSt (md_tree 0 mrs_exChild none) (Int.ofNat 0)
+    (q.1, q.2.1.childrenHeaders.map (fun h => (h.slabID, h.size.toNat)), q.2.1.header.size.toNat,
+      (q.2.2.1.heap ⟨1, 9⟩).isSome, (q.2.2.1.heap ⟨1, 41⟩).isSome, (q.2.2.1.heap ⟨1, 7⟩).isSome, q.2.2.1.ctx.eff)) =
+    (none, [(⟨1, 9⟩, 46), (⟨1, 41⟩, 46)], 48, true, true, true,
+      [.alloc 1 ⟨1, 41⟩, .store ⟨1, 9⟩, .store ⟨1, 41⟩, .store ⟨1, 7⟩]) := by rfl
+
+end examples
+
 end Atree.TransEq
